@@ -22,13 +22,21 @@ def cq_op(o):
 
 def cq_cev(o):
     if o["op"] == "cput":
-        return "CPut %s %s %s" % (C.cq_str(o.get("ns", "")), C.cq_str(o.get("name", "")), cq_ver(o))
+        return "XE (CPut %s %s %s)" % (C.cq_str(o.get("ns", "")), C.cq_str(o.get("name", "")), cq_ver(o))
     if o["op"] == "cdel":
-        return "CDel %s %s" % (C.cq_str(o.get("ns", "")), C.cq_str(o.get("name", "")))
+        return "XE (CDel %s %s)" % (C.cq_str(o.get("ns", "")), C.cq_str(o.get("name", "")))
     if o["op"] == "drain":
-        return "CDrain"
+        return "XE CDrain"
     if o["op"] == "get":
-        return "CGet %s" % C.cq_str(o.get("key", ""))
+        return "XE (CGet %s)" % C.cq_str(o.get("key", ""))
+    if o["op"] == "start":
+        return "XE CStart"
+    if o["op"] == "unwatch":
+        return "XE (CUnwatch %s)" % C.cq_str(o.get("ns", ""))
+    if o["op"] == "watch":
+        return "XE (CWatch %s)" % C.cq_str(o.get("ns", ""))
+    if o["op"] == "restart":
+        return "XRestart"
     raise ValueError(o["op"])
 
 
@@ -92,6 +100,10 @@ def signature(c, row):
         return {"kind": "reference-error"}, "a reference to an invalid/absent Secret does not report the error (or a valid one reports an error)"
     if kind == 4:
         return {"kind": "harness-shape"}, "observations and operations differ in number"
+    if kind == 5:
+        return ({"kind": "restart-leftover", "dir": "secrets"},
+                "a file written by the previous process is still in the secrets directory after the restart although in the new process "
+                "the Secret is absent / invalid / not asked for, or holds the content of an older version")
     if coll == 1:
         return {"kind": "collision", "scheme": "secret_file_ns_name"}, "two Secret keys whose ns-name concatenations coincide share a file"
     if coll == 2:
@@ -118,7 +130,14 @@ def judge(run, cases, res, st):
             run.failing({"kind": "harness-case-error"}, [c], "the harness could not run case %d: %s" % (c["id"], c["obs"]["error"][:300]),
                         theorem="correspondence harness c11", found_input=False)
         elif b == "panic":
-            p = [s["panic"] for s in c["obs"]["steps"] if s.get("panic")][0]
+            idx = [i for i, s in enumerate(c["obs"]["steps"]) if s.get("panic")][0]
+            p = c["obs"]["steps"][idx]["panic"]
+            if (is_ctl(c) and c["ops"][idx]["op"] == "drain" and "nil pointer" in p and
+                    any(o["op"] == "unwatch" for o in c["ops"][:idx])):
+                run.failing({"kind": "panic", "cause": "secret-task-after-namespace-unwatch"}, [c],
+                            "the worker panicked on a Secret task whose namespace stopped being watched (case %d)" % c["id"],
+                            theorem="Secrets.Cases (no panic)")
+                continue
             run.failing({"kind": "panic", "class": c["class"]}, [c], "the code under test panicked on case %d: %s" % (c["id"], p[:300]),
                         theorem="Secrets.Cases (no panic)")
     for c in cases:
@@ -193,8 +212,11 @@ def finish(run, st):
                        "configured through the real Configurator 10% in the classes force/mixed) over 2-4 Secrets; types: all 7 supported ones, 6 unsupported; "
                        "payloads: 3 real ed25519 key pairs, mismatched pair, non-PEM, missing keys, wrong PEM block, bad DER, OIDC secrets with forbidden "
                        "characters, duplicate API keys, empty data; classes clean/force (dash-free namespaces, no CA), ca, collide (a-b/c vs a/b-c), casuffix "
-                       "(x as CA vs x-ca.crt), retype, mixed, plus fixed witness histories of the refutation theorems.  Every fifth history is of the controller "
-                       "family (class ctl): cluster-level Secret events (create, update keeping the type, delete, delete-and-recreate with another "
+                       "(x as CA vs x-ca.crt), retype, mixed, plus fixed witness histories of the refutation theorems.  Every fourth history is of the controller "
+                       "family (classes ctl, ctl-life, ctl-restart; in the latter two the history begins with an existing cluster -- referenced and "
+                       "unreferenced, valid and invalid, supported and unsupported Secrets -- and the real preSyncSecrets; ctl-life lets namespaces lose the "
+                       "watch label (real lbc.sync of the namespace task -> cleanupUnwatchedNamespacedResources) and get it back (real newNamespacedInformer, "
+                       "Add events); ctl-restart lets the process restart over the surviving directory (new LocalManager, Configurator, store, controller)): cluster-level Secret events (create, update keeping the type, delete, delete-and-recreate with another "
                        "type / unsupported type / invalid payload) delivered to the real createSecretHandlers of a controller built by NewLoadBalancerController, "
                        "with the real work queue drained through the real lbc.sync at arbitrary points and lookups through lbc.secretStore; S compares the "
                        "directory with the object the cluster holds whenever no event is outstanding.  A case is distinct by its operations "
@@ -202,7 +224,10 @@ def finish(run, st):
     run.cov["trusted_base"] = TRUSTED
     run.assumptions += ["Kubernetes names contain no '/' (hypothesis of the theorems, enforced by the generator)",
                         "Secret.type is immutable while the object exists (hypothesis type_stable; histories violating it are generated and reported as F35)",
-                        "special secrets written by other routes (default, wildcard, license.jwt, mgmt/*, dhparam.pem) are not part of the model"]
+                        "special secrets written by other routes (default, wildcard, license.jwt, mgmt/*, dhparam.pem) are not part of the model: preSyncSecrets does not "
+                        "touch them, they are written by main.go / handleSpecialSecretUpdate and deliberately retained on deletion and on invalid updates",
+                        "a Secret task is never left queued when its namespace loses the watch label (that crashes the worker: finding F38, one fixed witness)",
+                        "a namespace that is deleted (not merely unlabelled) has had its Secrets deleted first, as the namespace finalizer guarantees"]
 
 
 def new_stats():
